@@ -101,6 +101,10 @@ def timeout_with_mapper_(
             def on_next(x: _T) -> None:
                 if observer_wins():
                     observer.on_next(x)
+                    if timer.is_disposed:
+                        # the subscriber unsubscribed inside on_next: no mapper call
+                        # and no timeout subscription on its behalf any more
+                        return
                     timeout = None
                     try:
                         timeout = (
